@@ -2,17 +2,18 @@ import PQ.Model.Ops
 import PQ.Lemmas.Spec
 import PQ.Lemmas.PQOps
 import PQ.Lemmas.DQOps
-import PQ.Lemmas.IterLemmas
 import PQ.Props.C14
 /-!
 # Helpers for the property files C06, C07, C08, C15 (all names carry the prefix `bp_`)
 
-* `bp_replay`, `bp_applyW`: the effect of an `iter_mut` program on the map as a pure replay of the machine's outputs;
-  `bp_iterMutRun_pq`, `bp_iterMutRun_dpq`: `iterMutRun` *is* "run the slot machine, then replay the writes";
 * `bp_popCalls`: the PQ sorted iterator consumed from the front (`next = pop`);
 * `bp_sortedCalls_append`, `bp_sortedCalls_count`: the DPQ sorted iterator over a split call list;
 * `bp_size_eq_of_abs_eq`: two well-formed stores with the same contents have the same length;
-* `bp_visitSeq_map`: deserializing a duplicate-free entry list reproduces exactly that list.
+* `bp_visitSeq_map`: deserializing a duplicate-free entry list reproduces exactly that list;
+* `bp_extend_common`: closed form and length of `extend`;
+* `bp_exP`, `bp_exW`, `bp_exO`, `bp_okR`, …: concrete data for the examples of the property files.
+
+(The `iter_mut` program runner `iterMutRun` is treated in `PQ/Lemmas/History.lean`: `hist_iterMutRun_spec`.)
 -/
 set_option linter.unusedSimpArgs false
 set_option linter.unusedSectionVars false
@@ -20,199 +21,322 @@ set_option linter.unusedVariables false
 namespace PQ
 open Arith Store
 
-/-! ## `iter_mut`: replaying the writes -/
-section IterMut
+/-! ## Equal contents, equal length -/
+section Size
 variable {P : Type}
 
-/-- the write `w` applied to the entry `e` (payload and priority are writable, the key is not) -/
-def bp_applyW (w : IMWrite P) (e : Item × P) : Item × P :=
-  (match w.payload with | some pl => { e.1 with payload := pl } | none => e.1,
-   match w.prio with | some p => p | none => e.2)
+theorem bp_size_eq_of_abs_eq {s t : Store P} (hs : s.WF) (ht : t.WF) (h : ∀ k, (s.abs k).isSome = (t.abs k).isSome) :
+    s.size = t.size := by
+  rw [← hs.map_size, ← ht.map_size, ← IMap.length_keys, ← IMap.length_keys]
+  apply List.Perm.length_eq
+  have e1 : (IMap.keys s.map).Nodup := IMap.noDupKeys_iff_nodup.1 hs.nodup
+  have e2 : (IMap.keys t.map).Nodup := IMap.noDupKeys_iff_nodup.1 ht.nodup
+  rw [List.perm_ext_iff_of_nodup e1 e2]
+  intro k
+  rw [IMap.mem_keys_iff_lookup, IMap.mem_keys_iff_lookup]
+  have := h k
+  simp only [Store.abs] at this
+  rw [this]
 
-theorem bp_applyW_key (w : IMWrite P) (e : Item × P) : (bp_applyW w e).1.key = e.1.key := by
-  unfold bp_applyW; cases w.payload <;> rfl
+/-- a list of entries with pairwise distinct keys that has the same members as the map is a permutation of the map's
+entry list -/
+theorem bp_perm_of_mem {s : Store P} (hs : s.WF) {l : List (Item × P)} (hnd : (l.map (·.1.key)).Nodup)
+    (hmem : ∀ e, e ∈ l ↔ s.Mem e) : l.Perm s.map.toList := by
+  have h1 : l.Nodup := List.Pairwise.of_map (·.1.key) (fun a b h hab => h (hab ▸ rfl)) hnd
+  have h2 : s.map.toList.Nodup :=
+    List.Pairwise.of_map (·.1.key) (fun a b h hab => h (hab ▸ rfl)) (IMap.noDupKeys_iff_nodup.1 hs.nodup)
+  rw [List.perm_ext_iff_of_nodup h1 h2]
+  intro e
+  rw [hmem e, Array.mem_toList_iff, Array.mem_iff_getElem?]
+  rfl
 
-theorem bp_applyWrite_eq (m : IMap P) (i : Nat) (w : IMWrite P) :
-    IMap.applyWrite m i w = match m[i]? with
-      | some e => m.setIfInBounds i (bp_applyW w e)
-      | none => m := rfl
+end Size
 
-theorem bp_size_applyWrite (m : IMap P) (i : Nat) (w : IMWrite P) : (IMap.applyWrite m i w).size = m.size := by
-  rw [bp_applyWrite_eq]; split <;> simp
+/-! ## Deserializing a duplicate-free entry list -/
+section VisitSeq
+variable {P : Type}
 
-theorem bp_getElem?_applyWrite (m : IMap P) (i j : Nat) (w : IMWrite P) :
-    (IMap.applyWrite m i w)[j]? = if i = j then (m[j]?).map (bp_applyW w) else m[j]? := by
-  rw [bp_applyWrite_eq]
-  cases h : m[i]? with
-  | none =>
-    simp only
-    split
-    · next hij => subst hij; rw [h]; rfl
-    · rfl
-  | some e =>
-    simp only
-    rw [Array.getElem?_setIfInBounds]
-    split
-    · next hij =>
-      subst hij
-      have : i < m.size := (Array.getElem?_eq_some_iff.1 h).1
-      rw [if_pos this, h]; rfl
-    · rfl
+theorem bp_foldl_visitSeqStep (l : List (Item × P)) : ∀ (s : Store P),
+    (s.map.toList ++ l).Pairwise (fun a b => a.1.key ≠ b.1.key) →
+    (l.foldl visitSeqStep s).map = s.map ++ l.toArray := by
+  induction l with
+  | nil => intro s _; simp
+  | cons e l ih =>
+    intro s hp
+    have hf : IMap.find? s.map e.1.key = none := by
+      rw [IMap.find?_eq_none_iff]
+      intro i e' he' hk
+      have hmem : e' ∈ s.map.toList := by
+        rw [Array.mem_toList_iff, Array.mem_iff_getElem?]; exact ⟨i, he'⟩
+      exact (List.pairwise_append.1 hp).2.2 e' hmem e (List.mem_cons_self ..) hk
+    rw [List.foldl_cons, visitSeqStep_eq_extendStep, extendStep_of_find?_none hf, ih]
+    · simp [pushTail_map]
+    · simp only [pushTail_map, Array.toList_push, List.append_assoc, List.singleton_append]
+      exact hp
 
-/-- the writes of the program `prog` replayed along the outputs `outs` of the slot machine: the write of call `j` goes
-to the slot call `j` yielded (if it yielded one) -/
-def bp_replay : List IOut → List (ICall × IMWrite P) → IMap P → IMap P
-  | o :: os, (_, w) :: ps, m =>
-    bp_replay os ps (match o with | .slot (some i) => IMap.applyWrite m i w | _ => m)
-  | _, _, m => m
+/-- **the deserializer reproduces a duplicate-free entry list exactly** (same entries in the same slots) -/
+theorem bp_visitSeq_map {m : IMap P} (hm : IMap.NoDupKeys m) : (visitSeq m).map = m := by
+  have := bp_foldl_visitSeqStep m.toList (empty : Store P)
+    (by simpa [empty] using IMap.noDupKeys_iff_pairwise.1 hm)
+  unfold visitSeq
+  rw [← Array.foldl_toList, this]
+  simp [empty]
 
-theorem bp_size_replay (outs : List IOut) : ∀ (prog : List (ICall × IMWrite P)) (m : IMap P),
-    (bp_replay outs prog m).size = m.size := by
-  induction outs with
-  | nil => intro prog m; cases prog <;> rfl
-  | cons o os ih =>
-    intro prog m
-    cases prog with
-    | nil => rfl
-    | cons cw ps =>
-      obtain ⟨c, w⟩ := cw
-      simp only [bp_replay]
-      rw [ih]
-      split
-      · exact bp_size_applyWrite _ _ _
-      · rfl
+end VisitSeq
 
-/-- a slot that was not yielded is untouched -/
-theorem bp_replay_not_mem (outs : List IOut) : ∀ (prog : List (ICall × IMWrite P)) (m : IMap P) (i : Nat),
-    i ∉ slots outs → (bp_replay outs prog m)[i]? = m[i]? := by
-  induction outs with
-  | nil => intro prog m i _; cases prog <;> rfl
-  | cons o os ih =>
-    intro prog m i hi
-    cases prog with
-    | nil => rfl
-    | cons cw ps =>
-      obtain ⟨c, w⟩ := cw
-      simp only [bp_replay]
-      cases o with
-      | slot oi =>
-        cases oi with
-        | none => exact ih ps m i (by simpa using hi)
-        | some i' =>
-          simp only [slots_cons_some, List.mem_cons, not_or] at hi
-          rw [ih ps _ i hi.2, bp_getElem?_applyWrite, if_neg (fun h => hi.1 h.symm)]
-      | len k => exact ih ps m i (by simpa using hi)
-      | hint lo hi' => exact ih ps m i (by simpa using hi)
-      | unsupported => exact ih ps m i (by simpa using hi)
+/-! ## The PQ sorted iterator consumed from the front -/
+section PopCalls
+variable {P : Type} [LT P] [DecidableLT P]
 
-/-- a slot yielded by call `j` (and, slots being yielded at most once, by no other call) holds afterwards the entry it
-had with the write of call `j` applied -/
-theorem bp_replay_at (outs : List IOut) : ∀ (prog : List (ICall × IMWrite P)) (m : IMap P) (j i : Nat) (c : ICall)
-    (w : IMWrite P), (slots outs).Nodup → outs[j]? = some (.slot (some i)) → prog[j]? = some (c, w) →
-    (bp_replay outs prog m)[i]? = (m[i]?).map (bp_applyW w) := by
-  induction outs with
-  | nil => intro prog m j i c w _ ho; simp at ho
-  | cons o os ih =>
-    intro prog m j i c w hnd ho hp
-    cases prog with
-    | nil => simp at hp
-    | cons cw ps =>
-      obtain ⟨c0, w0⟩ := cw
-      simp only [bp_replay]
-      cases j with
-      | zero =>
-        simp only [List.getElem?_cons_zero, Option.some.injEq] at ho hp
-        subst ho
-        cases hp
-        simp only [slots_cons_some, List.nodup_cons] at hnd
-        rw [bp_replay_not_mem os ps _ i hnd.1, bp_getElem?_applyWrite, if_pos rfl]
-      | succ j =>
-        simp only [List.getElem?_cons_succ] at ho hp
-        have hmem : i ∈ slots os := by
-          have : os = os.take j ++ (.slot (some i) :: os.drop (j + 1)) := by
-            have hj : j < os.length := by
-              rcases Nat.lt_or_ge j os.length with h | h
-              · exact h
-              · rw [List.getElem?_eq_none h] at ho; cases ho
-            rw [List.getElem?_eq_getElem hj] at ho
-            have := List.take_append_drop j os
-            rw [List.drop_eq_getElem_cons hj] at this
-            rw [← Option.some.inj ho]; exact this.symm
-          rw [this, slots_append]; simp
-        cases o with
-        | slot oi =>
-          cases oi with
-          | none => exact ih ps m j i c w (by simpa using hnd) ho hp
-          | some i' =>
-            simp only [slots_cons_some, List.nodup_cons] at hnd
-            have hne : i' ≠ i := fun h => hnd.1 (h ▸ hmem)
-            rw [ih ps _ j i c w hnd.2 ho hp, bp_getElem?_applyWrite, if_neg hne]
-        | len k => exact ih ps m j i c w (by simpa using hnd) ho hp
-        | hint lo hi' => exact ih ps m j i c w (by simpa using hnd) ho hp
-        | unsupported => exact ih ps m j i c w (by simpa using hnd) ho hp
+/-- `n` calls of `next` on `into_sorted_iter()` of a `PriorityQueue` (`next` is `pop`); returns the answers and the
+queue still held by the iterator -/
+def bp_popCalls : Nat → Store P → R (List (Option (Item × P)) × Store P)
+  | 0, s => pure ([], s)
+  | n + 1, s => do
+    let (s, r) ← MaxQ.pop s
+    let (rest, s) ← bp_popCalls n s
+    pure (r :: rest, s)
 
-/-- writes never change a key -/
-theorem bp_keys_replay (outs : List IOut) : ∀ (prog : List (ICall × IMWrite P)) (m : IMap P) (j : Nat),
-    ((bp_replay outs prog m)[j]?).map (fun e : Item × P => e.1.key) = (m[j]?).map (fun e : Item × P => e.1.key) := by
-  induction outs with
-  | nil => intro prog m j; cases prog <;> rfl
-  | cons o os ih =>
-    intro prog m j
-    cases prog with
-    | nil => rfl
-    | cons cw ps =>
-      obtain ⟨c, w⟩ := cw
-      simp only [bp_replay]
-      rw [ih]
-      split
-      · rw [bp_getElem?_applyWrite]
-        split
-        · cases m[j]? <;> simp [bp_applyW_key]
-        · rfl
-      · rfl
+variable [LE P] [Std.IsLinearPreorder P] [Std.LawfulOrderLT P]
 
-theorem bp_noDup_replay {m : IMap P} (hm : IMap.NoDupKeys m) (outs : List IOut) (prog : List (ICall × IMWrite P)) :
-    IMap.NoDupKeys (bp_replay outs prog m) :=
-  hm.congr_keys (bp_keys_replay outs prog m)
+theorem bp_popCalls_spec (n : Nat) : ∀ {s : Store P}, MaxQ.Inv s →
+    ∃ l s', MaxQ.intoSortedVec s = .ok l ∧
+      bp_popCalls n s = .ok ((l.take n).map some ++ List.replicate (n - l.length) none, s') ∧
+      MaxQ.Inv s' ∧ s'.size = s.size - n ∧ MaxQ.intoSortedVec s' = .ok (l.drop n) := by
+  induction n with
+  | zero =>
+    intro s h
+    obtain ⟨l, hl, _⟩ := MaxQ.intoSortedVec_spec h
+    exact ⟨l, s, hl, by simp [bp_popCalls, pure, Except.pure], h, by simp, by simpa using hl⟩
+  | succ n ih =>
+    intro s h
+    obtain ⟨h0, h1⟩ := MaxQ.pop_spec h
+    rcases Nat.eq_zero_or_pos s.size with hz | hpos
+    · obtain ⟨l, s', hl, hrun, hinv, hsz, hrest⟩ := ih h
+      have hnil : MaxQ.intoSortedVec s = .ok [] := by
+        unfold MaxQ.intoSortedVec; rw [hz]; exact MaxQ.drainSorted_nil 0 hz
+      rw [hnil] at hl; cases hl
+      refine ⟨[], s', hnil, ?_, hinv, by omega, by simpa using hrest⟩
+      simp only [bp_popCalls, h0 hz, bind, Except.bind, hrun, pure, Except.pure]
+      simp [List.replicate_succ]
+    · obtain ⟨s1, e, hpop, _, _, hinv1, _, hsz1⟩ := h1 hpos
+      obtain ⟨l, s', hl, hrun, hinv, hsz, hrest⟩ := ih hinv1
+      have hcons : MaxQ.intoSortedVec s = .ok (e :: l) := by
+        unfold MaxQ.intoSortedVec at hl ⊢
+        have : s.size = s1.size + 1 := by omega
+        rw [this]
+        exact MaxQ.drainSorted_cons hpop hl
+      refine ⟨e :: l, s', hcons, ?_, hinv, by omega, by simpa using hrest⟩
+      simp only [bp_popCalls, hpop, bind, Except.bind, hrun, pure, Except.pure]
+      simp
 
-/-- `iterMutRun` of the `PriorityQueue`: the outputs are those of the machine `PIterMut`, the map is the replay -/
-theorem bp_iterMutRun_pq (n : Nat) : ∀ (prog : List (ICall × IMWrite P)) (pit : PIterMut) (dit : DIterMut) (m : IMap P),
-    iterMutRun .pq n prog pit dit m =
-      .ok (PIterMut.run n pit (prog.map (·.1)), bp_replay (PIterMut.run n pit (prog.map (·.1))) prog m) := by
-  intro prog
-  induction prog with
-  | nil => intro pit dit m; rfl
-  | cons cw ps ih =>
-    intro pit dit m
-    obtain ⟨c, w⟩ := cw
-    simp only [iterMutRun, bind, Except.bind, pure, Except.pure, List.map_cons, PIterMut.run_cons]
-    rw [ih]
-    rfl
+end PopCalls
 
-/-- `iterMutRun` of the `DoublePriorityQueue`: it faults iff the machine `DIterMut` does; otherwise the outputs are
-the machine's and the map is the replay -/
-theorem bp_iterMutRun_dpq (n : Nat) : ∀ (prog : List (ICall × IMWrite P)) (pit : PIterMut) (dit : DIterMut) (m : IMap P),
-    iterMutRun .dpq n prog pit dit m =
-      (match DIterMut.run n dit (prog.map (·.1)) with
-       | .ok outs => .ok (outs, bp_replay outs prog m)
-       | .error f => .error f) := by
-  intro prog
-  induction prog with
-  | nil => intro pit dit m; rfl
-  | cons cw ps ih =>
-    intro pit dit m
-    obtain ⟨c, w⟩ := cw
-    simp only [iterMutRun, bind, Except.bind, pure, Except.pure, List.map_cons, DIterMut.run]
-    cases hs : dit.step n c with
-    | error f => rfl
+/-! ## The DPQ sorted iterator over a split call list -/
+section SortedCalls
+variable {P : Type} [LT P] [DecidableLT P] [LE P] [Std.IsLinearPreorder P] [Std.LawfulOrderLT P]
+
+theorem bp_sortedCalls_cons_inv {x : Bool} {xs : List Bool} {s s' : Store P} {o : List (Option (Item × P))}
+    (h : DQ.sortedCalls (x :: xs) s = .ok (o, s')) :
+    ∃ s1 r rest, (if x = true then DQ.popMax s else DQ.popMin s) = .ok (s1, r) ∧
+      DQ.sortedCalls xs s1 = .ok (rest, s') ∧ o = r :: rest := by
+  cases x
+  · simp only [DQ.sortedCalls, bind, Except.bind, Bool.false_eq_true, if_false] at h ⊢
+    cases hstep : DQ.popMin s with
+    | error f => rw [hstep] at h; cases h
     | ok v =>
-      obtain ⟨dit', o⟩ := v
-      simp only []
-      rw [ih]
-      cases DIterMut.run n dit' (ps.map (·.1)) with
-      | error f => rfl
-      | ok outs => rfl
+      obtain ⟨sa, r⟩ := v
+      rw [hstep] at h; simp only [] at h
+      cases hrest : DQ.sortedCalls xs sa with
+      | error f => rw [hrest] at h; cases h
+      | ok v2 =>
+        obtain ⟨rest, sb⟩ := v2
+        rw [hrest] at h
+        simp only [pure, Except.pure, Except.ok.injEq, Prod.mk.injEq] at h
+        obtain ⟨rfl, rfl⟩ := h
+        exact ⟨sa, r, rest, rfl, hrest, rfl⟩
+  · simp only [DQ.sortedCalls, bind, Except.bind, if_true] at h ⊢
+    cases hstep : DQ.popMax s with
+    | error f => rw [hstep] at h; cases h
+    | ok v =>
+      obtain ⟨sa, r⟩ := v
+      rw [hstep] at h; simp only [] at h
+      cases hrest : DQ.sortedCalls xs sa with
+      | error f => rw [hrest] at h; cases h
+      | ok v2 =>
+        obtain ⟨rest, sb⟩ := v2
+        rw [hrest] at h
+        simp only [pure, Except.pure, Except.ok.injEq, Prod.mk.injEq] at h
+        obtain ⟨rfl, rfl⟩ := h
+        exact ⟨sa, r, rest, rfl, hrest, rfl⟩
 
-end IterMut
+theorem bp_sortedCalls_append (a : List Bool) : ∀ (b : List Bool) (s s1 s2 : Store P) (o1 o2 : List (Option (Item × P))),
+    DQ.sortedCalls a s = .ok (o1, s1) → DQ.sortedCalls b s1 = .ok (o2, s2) →
+    DQ.sortedCalls (a ++ b) s = .ok (o1 ++ o2, s2) := by
+  induction a with
+  | nil =>
+    intro b s s1 s2 o1 o2 h1 h2
+    simp only [DQ.sortedCalls, pure, Except.pure, Except.ok.injEq, Prod.mk.injEq] at h1
+    obtain ⟨rfl, rfl⟩ := h1
+    simpa using h2
+  | cons x xs ih =>
+    intro b s s1 s2 o1 o2 h1 h2
+    obtain ⟨sa, r, rest, hstep, hrest, rfl⟩ := bp_sortedCalls_cons_inv h1
+    exact DQ.sortedCalls_cons_ok hstep (ih b sa s1 s2 rest o2 hrest h2)
+
+/-- the size goes down by exactly the number of entries handed out -/
+theorem bp_sortedCalls_count (calls : List Bool) : ∀ {s s' : Store P} {outs : List (Option (Item × P))}, s.WF →
+    DQ.sortedCalls calls s = .ok (outs, s') → s'.size + (outs.filterMap id).length = s.size := by
+  induction calls with
+  | nil =>
+    intro s s' outs _ h
+    simp only [DQ.sortedCalls, pure, Except.pure, Except.ok.injEq, Prod.mk.injEq] at h
+    obtain ⟨rfl, rfl⟩ := h
+    simp
+  | cons b bs ih =>
+    intro s s' outs h hrun
+    obtain ⟨h0, h1⟩ := DQ.sortedStep_core h b
+    rcases Nat.eq_zero_or_pos s.size with hz | hn
+    · obtain ⟨o2, s2, hr2, _⟩ := DQ.sortedCalls_safe h bs
+      have := DQ.sortedCalls_cons_ok (h0 hz) hr2
+      rw [this] at hrun
+      simp only [Except.ok.injEq, Prod.mk.injEq] at hrun
+      obtain ⟨rfl, rfl⟩ := hrun
+      simpa using ih h hr2
+    · obtain ⟨s1, e, hrun1, _, hwf1, _, hsz1, _⟩ := h1 hn
+      obtain ⟨o2, s2, hr2, _⟩ := DQ.sortedCalls_safe hwf1 bs
+      have := DQ.sortedCalls_cons_ok hrun1 hr2
+      rw [this] at hrun
+      simp only [Except.ok.injEq, Prod.mk.injEq] at hrun
+      obtain ⟨rfl, rfl⟩ := hrun
+      have := ih hwf1 hr2
+      simp only [id_eq, List.filterMap_cons, List.length_cons]
+      omega
+
+/-- an exhausted iterator answers `none` to every call and keeps its (empty) state -/
+theorem bp_sortedCalls_zero (calls : List Bool) : ∀ {s : Store P}, s.WF → s.size = 0 →
+    DQ.sortedCalls calls s = .ok (List.replicate calls.length none, s) := by
+  induction calls with
+  | nil => intro s _ _; rfl
+  | cons b bs ih =>
+    intro s h hz
+    exact DQ.sortedCalls_cons_ok ((DQ.sortedStep_core h b).1 hz) (ih h hz)
+
+/-- **the state of the double-ended sorted iterator before call `j`**: it is the state reached by the first `j` calls,
+it satisfies the invariant, its size is the original size minus the number of entries handed out so far; if it is
+empty, call `j` and every later call answer `none`; otherwise call `j` answers a minimum (`next`) resp. a maximum
+(`next_back`) of what it holds -/
+theorem bp_sortedCalls_at {s s' : Store P} (h : DQ.Inv s) {calls : List Bool} {outs : List (Option (Item × P))}
+    (hrun : DQ.sortedCalls calls s = .ok (outs, s')) (j : Nat) (hj : j < calls.length) :
+    ∃ sj, DQ.sortedCalls (calls.take j) s = .ok (outs.take j, sj) ∧ DQ.Inv sj ∧
+      sj.size + ((outs.take j).filterMap id).length = s.size ∧
+      (sj.size = 0 → ∀ j', j ≤ j' → j' < calls.length → outs[j']? = some none) ∧
+      (0 < sj.size → ∃ e, outs[j]? = some (some e) ∧
+        if calls[j]? = some true then sj.IsMax e else sj.IsMin e) := by
+  obtain ⟨o1, sj, hr1, hinv1, hlen1, _, _, _⟩ := DQ.sortedCalls_spec h (calls.take j)
+  obtain ⟨o2, s2, hr2, _, hlen2, _, _, _⟩ := DQ.sortedCalls_spec hinv1 (calls.drop j)
+  have happ := bp_sortedCalls_append _ _ _ _ _ _ _ hr1 hr2
+  rw [List.take_append_drop, hrun] at happ
+  simp only [Except.ok.injEq, Prod.mk.injEq] at happ
+  obtain ⟨houts, _⟩ := happ
+  have hl1 : o1.length = j := by rw [hlen1, List.length_take]; omega
+  have htake : outs.take j = o1 := by rw [houts, List.take_left' hl1]
+  have hget : ∀ j', j ≤ j' → outs[j']? = o2[j' - j]? := by
+    intro j' hjj
+    rw [houts, List.getElem?_append_right (by omega), hl1]
+  refine ⟨sj, by rw [htake]; exact hr1, hinv1, by rw [htake]; exact bp_sortedCalls_count _ h.1 hr1, ?_, ?_⟩
+  · intro hz j' hjj hj'
+    have := bp_sortedCalls_zero (calls.drop j) hinv1.1 hz
+    rw [hr2] at this
+    simp only [Except.ok.injEq, Prod.mk.injEq] at this
+    rw [hget j' hjj, this.1, List.getElem?_replicate, if_pos (by rw [List.length_drop]; omega)]
+  · intro hpos
+    have hdrop : calls.drop j = calls[j] :: calls.drop (j + 1) := List.drop_eq_getElem_cons hj
+    rw [hdrop] at hr2
+    obtain ⟨s1, r, rest, hstep, _, rfl⟩ := bp_sortedCalls_cons_inv hr2
+    obtain ⟨s1', e, hstep', _, _, _, _, hord⟩ := (DQ.sortedStep_core hinv1.1 calls[j]).2 hpos
+    rw [hstep] at hstep'
+    simp only [Except.ok.injEq, Prod.mk.injEq] at hstep'
+    obtain ⟨_, rfl⟩ := hstep'
+    refine ⟨e, by rw [hget j (Nat.le_refl _)]; simp, ?_⟩
+    have hq := (hord hinv1.2).2
+    rw [List.getElem?_eq_getElem hj]
+    unfold DQ.ExtremeQ at hq
+    by_cases hc : calls[j] = true
+    · rw [if_pos hc] at hq
+      rw [if_pos (by rw [hc]), DQ.isMax_iff_abs hinv1.1]; exact hq
+    · rw [if_neg hc] at hq
+      rw [if_neg (by simpa using hc), DQ.isMin_iff_abs hinv1.1]; exact hq
+
+end SortedCalls
+
+/-! ## `extend`: closed form and length -/
+section Extend
+variable {P : Type}
+
+/-- any well-formed store whose contents are the abstract `extend` fold has the closed-form contents (priority of the
+LAST pair given for the key; the item that was stored, else the item of the FIRST pair given) and the length of
+`Store.extend` (old length plus the number of distinct new keys) -/
+theorem bp_extend_common {s s' : Store P} (hs : s.WF) (hs' : s'.WF) (xs : Array (Item × P))
+    (habs : s'.abs = xs.foldl Store.absStep s.abs) :
+    (∀ k, s'.abs k =
+      match xs.toList.reverse.find? (fun e => e.1.key == k) with
+      | none => s.abs k
+      | some b => some ((((s.abs k).or (xs.toList.find? (fun e => e.1.key == k))).map (·.1)).getD b.1, b.2)) ∧
+    s'.size = s.size + ((xs.toList.map (·.1.key)).filter (fun k => !IMap.contains s.map k)).eraseDups.length := by
+  constructor
+  · intro k
+    rw [habs, ← Array.foldl_toList, foldl_absStep_apply]
+    cases List.find? (fun e : Item × P => e.1.key == k) xs.toList.reverse <;> rfl
+  · rw [← size_extend s xs]
+    apply bp_size_eq_of_abs_eq hs' (wf_extend hs xs)
+    intro k
+    have : (Store.extend s xs).abs = xs.foldl Store.absStep s.abs := lookup_extend s xs
+    rw [habs, this]
+
+end Extend
+
+/-! ## Concrete data for the examples of the property files -/
+section Examples
+
+/-- a five-element `PriorityQueue`; priorities by heap position: 9 / 5 7 / 1 3 -/
+def bp_exP : Store Nat :=
+  { map := #[(⟨1, 10⟩, 5), (⟨2, 20⟩, 9), (⟨3, 30⟩, 7), (⟨4, 40⟩, 1), (⟨5, 50⟩, 3)],
+    heap := #[1, 0, 2, 3, 4], qp := #[1, 0, 2, 3, 4], size := 5 }
+
+theorem bp_exP_inv : MaxQ.Inv bp_exP := by decide +kernel
+
+/-- well-formed but NOT ordered (neither as a max-heap nor as a min-max heap) -/
+def bp_exW : Store Nat :=
+  { map := #[(⟨1, 10⟩, 5), (⟨2, 20⟩, 0), (⟨3, 30⟩, 7), (⟨4, 40⟩, 1), (⟨5, 50⟩, 3)],
+    heap := #[1, 0, 2, 3, 4], qp := #[1, 0, 2, 3, 4], size := 5 }
+
+theorem bp_exW_wf : bp_exW.WF := by decide +kernel
+
+/-- a two-element store sharing key `1` with `bp_exP` / `bp_exW` -/
+def bp_exO : Store Nat :=
+  { map := #[(⟨1, 11⟩, 8), (⟨9, 90⟩, 2)], heap := #[1, 0], qp := #[1, 0], size := 2 }
+
+theorem bp_exO_wf : bp_exO.WF := by decide +kernel
+
+/-- a key-preserving predicate that rewrites payload and priority -/
+def bp_fDrop : Item → Nat → Bool × Item × Nat := fun it p => (p != 7, ⟨it.key, it.payload + 1⟩, 10 - p)
+theorem bp_fDrop_legal : ∀ it p, (bp_fDrop it p).2.1.key = it.key := fun _ _ => rfl
+
+def bp_fYes : Item → Nat → Bool × Item × Nat := fun it p => (true, ⟨it.key, 99⟩, p + 1)
+def bp_fNo : Item → Nat → Bool × Item × Nat := fun it p => (false, ⟨it.key, 99⟩, p + 1)
+theorem bp_fYes_legal : ∀ it p, (bp_fYes it p).2.1.key = it.key := fun _ _ => rfl
+theorem bp_fNo_legal : ∀ it p, (bp_fNo it p).2.1.key = it.key := fun _ _ => rfl
+
+/-- "the result is `.ok x` and `x` satisfies `q`" (decidable when `q` is) -/
+def bp_okR {α : Type} (r : R α) (q : α → Prop) : Prop :=
+  match r with
+  | .ok x => q x
+  | .error _ => False
+
+instance {α : Type} (r : R α) (q : α → Prop) [DecidablePred q] : Decidable (bp_okR r q) := by
+  unfold bp_okR; split <;> infer_instance
+
+end Examples
 
 end PQ
